@@ -207,6 +207,63 @@ theorem canonRow_lookup (r : Row) (f : String) (h : (keysD r.values).Nodup) :
     (canonRow r).table = r.table ∧ lookupD f (canonRow r).values = lookupD f r.values :=
   ⟨rfl, lookupD_sortD _ _ h⟩
 
+/-! ### 2b. whatever the NAME of a field or of a table -/
+
+theorem keptValues_lookup_sc (d : Dict Val) (f : String) (v : Sc) (h : lookupD f d = some (.sc v)) :
+    lookupD f (keptValues d) = some (.sc v) := by
+  induction d with
+  | nil => cases h
+  | cons hd t ih =>
+    obtain ⟨k', x⟩ := hd
+    simp only [lookupD] at h
+    by_cases hk : f = k'
+    · simp only [hk, if_true] at h
+      cases h
+      simp [keptValues, Val.isRow, lookupD, hk]
+    · simp only [hk, if_false] at h
+      have := ih h
+      simp only [keptValues, List.filter_cons] at this ⊢
+      split
+      · simp only [lookupD, hk, if_false]; exact this
+      · exact this
+
+theorem keysD_keptValues_nodup (d : Dict Val) (h : (keysD d).Nodup) : (keysD (keptValues d)).Nodup :=
+  List.Nodup.sublist ((List.filter_sublist (l := d)).map _) h
+
+/-- **Every field, whatever it is called**: a scalar field `f` of the row known as `k` — `f` any
+    string: hidden `__x`, `_legacy_code`, `_sf_update_key`, unicode, with spaces or dots — is read
+    back under the same name with the same typed value.  (No condition on `f`: the only fields a
+    continuation loses are the row-valued ones, D03.) -/
+theorem field_roundtrip_any_name {τ : Type} (Y : Yaml τ) (hY : Lawful Y) (g g' : G) (doc : StateOf τ)
+    (hn : g.deps.Nodup) (hs : saveFile Y g = .ok doc) (hl : loadFile Y doc = .ok g')
+    (k : String) (r : Row) (hkeys : (keysD g.pNick).Nodup) (hk : lookupD k g.pNick = some r)
+    (hf : (keysD r.values).Nodup) (f : String) (v : Sc) (hv : lookupD f r.values = some (.sc v)) :
+    ∃ r', lookupD k g'.pNick = some r' ∧ r'.table = r.table ∧ lookupD f r'.values = some (.sc v) := by
+  rw [persist_roundtrip Y hY g doc hn hs] at hl
+  cases hl
+  refine ⟨canonRow (stripRow r), ?_, rfl, ?_⟩
+  · simp only [canon, strip]
+    rw [lookupD_sortD _ _ (by rw [keysD_mapD, keysD_mapD]; exact hkeys), lookupD_mapD, lookupD_mapD, hk]
+    rfl
+  · simp only [canonRow, stripRow]
+    rw [lookupD_sortD _ _ (keysD_keptValues_nodup _ hf)]
+    exact keptValues_lookup_sc _ f v hv
+
+/-- **Every table that has a counter**, whether or not it is a top-level template of the recipe
+    (nested-only, friends-only and hidden tables are *not* in `nickTable`): its counter and its
+    `start_id` are restored.  (No condition relating `t` to `g.nickTable`.) -/
+theorem counter_roundtrip_any_table {τ : Type} (Y : Yaml τ) (hY : Lawful Y) (g g' : G) (doc : StateOf τ)
+    (hn : g.deps.Nodup) (hs : saveFile Y g = .ok doc) (hl : loadFile Y doc = .ok g')
+    (hkeys : (keysD g.lastUsed).Nodup) (t : String) :
+    lookupD t g'.lastUsed = lookupD t g.lastUsed ∧
+    lookupD t g'.startIds = (lookupD t g.lastUsed).map startIdOf := by
+  rw [persist_roundtrip Y hY g doc hn hs] at hl
+  cases hl
+  constructor
+  · exact lookupD_sortD _ _ hkeys
+  · simp only [canon, strip]
+    rw [lookupD_mapD, lookupD_sortD _ _ hkeys]
+
 /-! ### 3. load, then save again -/
 
 /-- saving does not see the difference between a state and what a load gives back for it -/
@@ -372,19 +429,24 @@ theorem decimal_roundtrip {τ : Type} (Y : Yaml τ) (hY : Lawful Y) :
 /-! ### Non-vacuity: a state with hostile strings, a big int, two tables, a dependency -/
 
 def exG : G :=
-  { lastUsed := [("Q", 1), ("A", 3)], startIds := [("Q", 1), ("A", 1)],
+  { lastUsed := [("Q", 1), ("A", 3), ("KidC", 5)], startIds := [("Q", 1), ("A", 1), ("KidC", 1)],
     pNick := [("qq", ⟨"Q", [("id", .sc (.int 1)), ("s", .sc (.str "12")), ("n", .sc (.str "null")),
                             ("big", .sc (.int 1180591620717411303424)), ("b", .sc (.bool true)),
                             ("d", .sc (.date "2024-02-29")), ("z", .sc .null), ("f", .sc (.float "1.5")),
-                            ("dec", .sc (.decimal "1.10"))]⟩)],
+                            ("dec", .sc (.decimal "1.10")),
+                            ("__h", .sc (.int 7)), ("_legacy_code", .sc (.str "abc"))]⟩)],
     pTable := [("Q", ⟨"Q", [("id", .sc (.int 1)), ("s", .sc (.str "12"))]⟩)],
     nickTable := [("qq", "Q"), ("Q", "Q"), ("A", "A")], today := .date "2024-03-01",
     deps := [⟨"A", "Q", "q"⟩] }
 
 example : ∃ g1, cycle idYaml exG = .ok g1 ∧ g1 = canon exG ∧ g1 ≠ exG ∧
     lookupD "s" ((lookupD "qq" g1.pNick).getD default).values = some (.sc (.str "12")) ∧
-    lookupD "A" g1.startIds = some 4 := by
-  refine ⟨_, rfl, by decide, by decide, by decide, by decide⟩
+    lookupD "A" g1.startIds = some 4 ∧
+    -- a hidden field, an underscore field, and the counter of a table that is not in `nickTable`
+    lookupD "__h" ((lookupD "qq" g1.pNick).getD default).values = some (.sc (.int 7)) ∧
+    lookupD "_legacy_code" ((lookupD "qq" g1.pNick).getD default).values = some (.sc (.str "abc")) ∧
+    lookupD "KidC" g1.lastUsed = some 5 ∧ lookupD "KidC" exG.nickTable = none := by
+  refine ⟨_, rfl, by decide, by decide, by decide, by decide, by decide, by decide, by decide, by decide⟩
 
 example : chain idYaml 4 exG = .ok (canon exG) :=
   chain_stable idYaml idYaml_lawful exG _ (by decide) rfl 3
